@@ -634,8 +634,11 @@ def apply(repo) -> dict:
     new = {k: f for k, f in repo.functions.items() if k not in known}
     if new:
         refs = _references(repo)
+        was_inlined = {x.split(" -> ")[0] for x in report["inlined"]}
         for k, f in new.items():
-            if f.node.name not in refs:
+            # only helpers whose every use was inlined disappear; a new function that nobody in the package calls
+            # (new API, a function used from outside) stays a unit of analysis
+            if f.node.name not in refs and k in was_inlined:
                 _remove_def(repo, f)
                 report["removed"].append(k)
         if report["removed"]:
